@@ -1,7 +1,7 @@
 """C09 — alternative distance algorithms (structural clauses)."""
 from . import scopes
 from ..core.report import DOMAIN_D
-from ..rules import nesterov, johnson, mink, loops, frame, unpack, misc2
+from ..rules import colliders, rowalias, nesterov, johnson, mink, loops, frame, unpack, misc2
 from .common import e2
 
 N1 = "distance3d.gjk._gjk_nesterov_accelerated"
@@ -23,6 +23,7 @@ def run(idx, rep, tier):
     nesterov.r_infl(idx, rep)
     nesterov.r_dispatch(idx, rep)
     nesterov.r_dtree(idx, rep)
+    rowalias.r_rowalias(idx, rep, ["distance3d.gjk._gjk_nesterov_accelerated", "distance3d.gjk._gjk_nesterov_accelerated_primitives"])      # the simplex re-ordering functions get views of the rows they overwrite
     nesterov.r_tuplerole(idx, rep)
     johnson.r_johnson(idx, rep)
     johnson.r_johnsonrec(idx, rep)
@@ -34,6 +35,8 @@ def run(idx, rep, tier):
     frame.r_frame(idx, rep, e2(idx), modules={N1, N2}, floor=10)      # relative pose oR1 / ot1 of collider 1 in collider 0's frame
     nesterov.r_mainloop(idx, rep)
     misc2.r_dupcond(idx, rep, [m.name for m in idx.lib_modules()], floor=3)
+    colliders.r_coherence(idx, rep, relevant_to="support_function")      # the colliders of the statement include colliders that were moved with update_pose: a stale attribute changes the support mapping the solver sees
+    misc2.r_adjacency(idx, rep)      # mesh colliders answer support queries by hill climbing over this adjacency
     nesterov.r_supportsibling(idx, rep)
     johnson.r_cofactorsign(idx, rep)
     unpack.r_unpack(idx, rep, floor=27)
